@@ -126,3 +126,298 @@ Proof.
     specialize (S (rowP r) (in_map rowP _ _ Hin)). cbn [rowP fst snd] in S.
     exists (r_kv r). split; [destruct ug; reflexivity|exact S].
 Qed.
+
+(** * set_kvpair_element of the no-duplicates class on a represented list: the model's [nd_set_kvpair] *)
+
+(** [self._kvpair_order.append(key)] is C09's regenerated OrderedSet.add on (heap, record) *)
+Lemma trp_os_add_eq lw hp (os : oset) item :
+  trp_os_add lw hp os item = lift2 (os_add lw item (hp, os)).
+Proof. apply os_run_lift. intros. apply tr_os_add_eq. Qed.
+
+(** the new element is not (yet) an element of the paragraph: no entry of the dict holds it *)
+Definition kv_unused (kvd : kvdict) (v : kvelem) : bool := forallb (fun p => negb (str_eqb (snd p) v)) kvd.
+(** if the paragraph has a field of that name, the new field spells the name as the existing one does (the order set
+    keeps the spelling of the existing key; the model reads the names off the fields) *)
+Definition spell_ok (fs : list field) (vf : field) : bool :=
+  match List.find (has_name (f_name vf)) fs with
+  | Some f => str_eqb (f_name f) (f_name vf)
+  | None => true
+  end.
+
+Lemma t_get_in {V} k (t : tbl V) x : t_get k t = Some x -> exists k', In (k', x) t.
+Proof.
+  induction t as [|[k0 v0] t IH]; cbn; [discriminate|].
+  destruct (str_eqb k k0).
+  - intros [= <-]. exists k0. now left.
+  - intros H. destruct (IH H) as [k' Hk]. exists k'. now right.
+Qed.
+
+Lemma kv_unused_rows kvs kvd R v :
+  kv_inv kvs kvd (map rowP R) -> kv_unused kvd v = true -> forall r, In r R -> r_kv r <> v.
+Proof.
+  intros Ki Hu r Hr E. pose proof (kv_get_row _ _ _ _ Ki Hr) as G. unfold trp_kvd_get in G.
+  destruct (t_get (lower (f_name (r_f r))) kvd) as [x|] eqn:G2; [|discriminate]. injection G as ->.
+  destruct (t_get_in _ _ _ G2) as [k' Hin]. unfold kv_unused in Hu. rewrite forallb_forall in Hu.
+  specialize (Hu _ Hin). cbn [snd] in Hu. rewrite E, str_eqb_refl in Hu. discriminate.
+Qed.
+
+Lemma tr_nd_ensure_rep' hp kvs kvd os R :
+  nd_inv hp kvs kvd os R ->
+  exists kvs', tr_nd_ensure_final_newline lower hp kvs kvd os = MOk tt (hp, kvs', kvd, os)
+               /\ nd_inv hp kvs' kvd os (map_last row_nl R)
+               /\ forall x, (forall r, In r R -> r_kv r <> x) -> t_get x kvs' = t_get x kvs.
+Proof.
+  intros I. pose proof I as [Ro Ki]. unfold tr_nd_ensure_final_newline.
+  rewrite (tr_nd_iter_parts_rep _ _ _ _ _ I), ensure_loop_last.
+  destruct (list_snoc_cases R) as [->|(A & r & ->)].
+  - exists kvs. split; [reflexivity|]. split; [exact I|reflexivity].
+  - rewrite map_app. cbn [map]. rewrite StructLemmas.last_opt_snoc. cbn [tr_nd_ensure_final_newline_loop1].
+    destruct (kv_inv_nl _ _ _ _ Ki) as [Hg Ki'].
+    unfold trp_kv_value_element, trp_ve_add_final_newline. rewrite Hg.
+    eexists. split; [reflexivity|]. rewrite map_last_snoc. split; [split; [|exact Ki']|].
+    + rewrite <- (map_last_snoc row_nl), rows_nl_L. exact Ro.
+    + intros x Hx. rewrite t_get_set. destruct (str_eqb x (r_kv r)) eqn:E; [|reflexivity].
+      apply str_eqb_eq in E. exfalso. apply (Hx r); [apply in_or_app; right; now left|now symmetry].
+Qed.
+
+Lemma kvd_get_absent kvs kvd R n :
+  kv_inv kvs kvd (map rowP R) -> ~ In (lower n) (map rk R) -> t_get (lower n) kvd = None.
+Proof.
+  intros Ki Hn. destruct (t_get (lower n) kvd) eqn:G; [|reflexivity]. exfalso. apply Hn.
+  rewrite <- map_pk_rowP. apply (kv_inv_keys _ _ _ _ Ki).
+  destruct (In_dec (list_eq_dec N.eq_dec) (lower n) (map fst kvd)) as [Hi|Hi]; [exact Hi|].
+  apply t_get_none in Hi. congruence.
+Qed.
+
+(** the dict and the store after the new element has replaced the one of the same name *)
+Lemma kv_inv_replace kvs kvd A r B v vf :
+  kv_inv kvs kvd (map rowP (A ++ r :: B)) ->
+  rk r = lower (f_name vf) -> t_get v kvs = Some vf -> (forall r', In r' (A ++ r :: B) -> r_kv r' <> v) ->
+  kv_inv kvs (t_set (lower (f_name vf)) v kvd) (map rowP (A ++ mkRow (r_id r) v vf :: B)).
+Proof.
+  intros [K G D Rf S] Hk Hv Hfr. rewrite map_app in *. cbn [map] in *.
+  assert (Epk : pk (rowP (mkRow (r_id r) v vf)) = pk (rowP r)).
+  { unfold pk, rowP. cbn [snd r_f]. symmetry. exact Hk. }
+  assert (K' : NoDup (map pk (map rowP A ++ rowP (mkRow (r_id r) v vf) :: map rowP B))).
+  { rewrite map_app in *. cbn [map] in *. now rewrite Epk. }
+  constructor.
+  - exact K'.
+  - intros kl. rewrite t_get_set, G, (afind_mid pk) by exact K. rewrite (afind_mid pk) by exact K'.
+    rewrite Epk. change (pk (rowP r)) with (rk r). rewrite Hk.
+    destruct (str_eqb kl (lower (f_name vf))); reflexivity.
+  - now apply t_set_nodup.
+  - rewrite map_app in Rf |- *. cbn [map rowP fst r_kv] in Rf |- *.
+    apply (NoDup_Add (Add_app v _ _)). split; [now apply NoDup_remove_1 in Rf|].
+    intros Hin. apply in_app_or in Hin.
+    destruct Hin as [Hin|Hin]; apply in_map_iff in Hin; destruct Hin as (p & Ep & Hp);
+      apply in_map_iff in Hp; destruct Hp as (r' & <- & Hr'); cbn [rowP fst] in Ep;
+      (apply (Hfr r'); [apply in_or_app; (now left) || (right; now right)|exact Ep]).
+  - apply Forall_app in S as [SA SB]. inversion SB as [|? ? _ SB']; subst. apply Forall_app. split; [exact SA|].
+    constructor; [exact Hv|exact SB'].
+Qed.
+
+(** ... after the new element has been appended *)
+Lemma kv_inv_append kvs kvd R i v vf :
+  kv_inv kvs kvd (map rowP R) ->
+  ~ In (lower (f_name vf)) (map rk R) -> t_get v kvs = Some vf -> (forall r', In r' R -> r_kv r' <> v) ->
+  kv_inv kvs (t_set (lower (f_name vf)) v kvd) (map rowP (R ++ [mkRow i v vf])).
+Proof.
+  intros [K G D Rf S] Hn Hv Hfr. rewrite map_app. cbn [map]. constructor.
+  - rewrite map_app. cbn [map]. apply nodup_snoc; [exact K|]. rewrite map_pk_rowP. exact Hn.
+  - intros kl. rewrite t_get_set, G, afind_app. cbn [afind].
+    change (pk (rowP (mkRow i v vf))) with (lower (f_name vf)).
+    destruct (str_eqb kl (lower (f_name vf))) eqn:E.
+    + apply str_eqb_eq in E. subst kl.
+      assert (Hno : afind pk (lower (f_name vf)) (map rowP R) = None) by (apply afind_none; now rewrite map_pk_rowP).
+      rewrite Hno. reflexivity.
+    + destruct (afind pk kl (map rowP R)); reflexivity.
+  - now apply t_set_nodup.
+  - rewrite map_app. cbn [map rowP fst r_kv]. apply nodup_snoc; [exact Rf|].
+    intros Hin. apply in_map_iff in Hin. destruct Hin as (p & Ep & Hp).
+    apply in_map_iff in Hp. destruct Hp as (r' & <- & Hr'). cbn [rowP fst] in Ep. now apply (Hfr r').
+  - apply Forall_app. split; [exact S|]. constructor; [exact Hv|constructor].
+Qed.
+
+Lemma rows_nl_kv R : map r_kv (map_last row_nl R) = map r_kv R.
+Proof. apply map_last_map. intros r. reflexivity. Qed.
+
+Theorem tr_nd_set_kvpair_refines hp kvs kvd os fs k v vf :
+  nd_rep hp kvs kvd os fs ->
+  t_get v kvs = Some vf -> kv_unused kvd v = true -> spell_ok fs vf = true ->
+  nd_refines (tr_nd_set_kvpair_element lower hp kvs kvd os k v) (res_sres fs (nd_set_kvpair fs k vf)).
+Proof.
+  intros (R & [Ro Ki] & <-) Hv Hu Hs. unfold tr_nd_set_kvpair_element, nd_set_kvpair, trp_unpack_key.
+  destruct (unpack_key k true) as [[n i]|e]; cbn [bind fst]; [|apply nd_refines_fail; exists R; now split].
+  unfold trp_stri_is_nametoken, trp_kv_field_name. rewrite Hv. cbv beta iota zeta.
+  unfold trp_stri_eqb. change (str_eqb (lower n) (lower (f_name vf))) with (name_eqb n (f_name vf)).
+  destruct (name_eqb n (f_name vf)); cbn [negb]; [|apply nd_refines_fail; exists R; now split].
+  unfold trp_kvd_get_opt, trp_kvd_set, trp_kv_set_parent.
+  pose proof (kv_unused_rows _ _ _ _ Ki Hu) as Hfr.
+  destruct (rows_find (f_name vf) R) as [[Ef Hn]|(A & r & B & ER & Hk & HnA & Ef & Erm)]; rewrite find_existsb, Ef.
+  - rewrite (kvd_get_absent _ _ _ _ Ki Hn).
+    destruct (tr_nd_ensure_rep' _ _ _ _ _ (conj Ro Ki)) as (kvs' & Ee & [Ro' Ki'] & Hsame). rewrite Ee.
+    cbv beta iota zeta. rewrite trp_os_add_eq.
+    assert (Hn' : afind (keyL lower) (lower (f_name vf)) (map rowL (map_last row_nl R)) = None).
+    { apply afind_none. now rewrite map_keyL_rowL, rows_nl_rk. }
+    destruct (os_add_absent lower hp os _ (f_name vf) Ro' Hn') as (h' & os' & Eo & Ro'' & _). rewrite Eo.
+    cbn [lift2 res_sres]. eexists. split; [reflexivity|].
+    exists (map_last row_nl R ++ [mkRow (nxt hp) v vf]). split.
+    + split; [rewrite map_app; exact Ro''|].
+      apply kv_inv_append; [exact Ki'|now rewrite rows_nl_rk| |].
+      * rewrite Hsame; [exact Hv|exact Hfr].
+      * intros r' Hr' E. apply (in_map r_kv) in Hr'. rewrite rows_nl_kv in Hr'.
+        apply in_map_iff in Hr'. destruct Hr' as (r2 & E2 & Hr2). apply (Hfr r2 Hr2). congruence.
+    + rewrite map_app, rows_nl_fields. reflexivity.
+  - assert (Hin : In r R) by (rewrite ER; apply in_or_app; right; now left).
+    pose proof (kv_get_row _ _ _ _ Ki Hin) as G. unfold trp_kvd_get in G. fold (rk r) in G. rewrite Hk in G.
+    destruct (t_get (lower (f_name vf)) kvd) as [okv|] eqn:G2; [|discriminate].
+    cbv beta iota zeta. rewrite trp_os_add_eq.
+    assert (Hp : afind (keyL lower) (lower (f_name vf)) (map rowL R) <> None).
+    { intros Hno. apply afind_none in Hno. apply Hno. rewrite map_keyL_rowL, ER, map_app.
+      apply in_or_app. right. left. exact Hk. }
+    rewrite (os_add_present lower hp os _ (f_name vf) Ro Hp). cbn [lift2 res_sres].
+    eexists. split; [reflexivity|].
+    unfold spell_ok in Hs. rewrite Ef in Hs. apply str_eqb_eq in Hs.
+    exists (A ++ mkRow (r_id r) v vf :: B). split.
+    + split.
+      * rewrite ER in Ro. rewrite map_app in *. cbn [map] in *.
+        replace (rowL (mkRow (r_id r) v vf)) with (rowL r); [exact Ro|].
+        unfold rowL. cbn [r_id r_f]. now rewrite Hs.
+      * rewrite ER in Ki. apply kv_inv_replace; [exact Ki|exact Hk|exact Hv|].
+        intros r' Hr'. apply Hfr. now rewrite ER.
+    + rewrite ER, !map_app. cbn [map r_f]. rewrite DocProofs.replace_first_split; [reflexivity| |].
+      * now apply not_in_rk_forallb.
+      * rewrite has_name_lower. fold (rk r). rewrite Hk. apply str_eqb_refl.
+Qed.
+
+(** * set_field_from_raw_string on a represented list: the model's [set_raw] *)
+
+(** ** freshness of the element the parser primitive allocates *)
+Definition maxlen (kvs : kvstore) : nat := fold_right (fun p m => Nat.max (length (fst p)) m) O kvs.
+Lemma maxlen_ge (kvs : kvstore) k : In k (map fst kvs) -> (length k <= maxlen kvs)%nat.
+Proof.
+  induction kvs as [|[k0 f0] t IH]; cbn; [tauto|]. intros [<-|H]; [lia|]. specialize (IH H). unfold maxlen in IH. lia.
+Qed.
+Lemma kv_fresh_get kvs : t_get (kv_fresh kvs) kvs = None.
+Proof.
+  apply t_get_none. intros H. apply maxlen_ge in H. unfold kv_fresh in H. rewrite repeat_length in H.
+  unfold maxlen in H. lia.
+Qed.
+Lemma kv_fresh_unused kvs kvd P : kv_inv kvs kvd P -> kv_unused kvd (kv_fresh kvs) = true.
+Proof.
+  intros [K G D Rf S]. unfold kv_unused. apply forallb_forall. intros [k' x] Hin. cbn [snd].
+  destruct (str_eqb x (kv_fresh kvs)) eqn:E; [|reflexivity]. apply str_eqb_eq in E. exfalso.
+  pose proof (t_get_in_nodup _ _ _ D Hin) as Gx. rewrite G in Gx.
+  destruct (afind pk k' P) as [p|] eqn:Ea; [|discriminate]. cbn in Gx. injection Gx as Ex.
+  apply afind_some in Ea. destruct Ea as [Hp _]. rewrite Forall_forall in S. specialize (S p Hp).
+  rewrite Ex, E, kv_fresh_get in S. discriminate.
+Qed.
+
+(** ** small facts *)
+Lemma mapM_format_comment l :
+  tr_mapM (fun x => do t <- tr_format_comment x; Ok t) l = map_result format_comment l.
+Proof.
+  induction l as [|c l IH]; [reflexivity|]. cbn [tr_mapM map_result]. rewrite tr_format_comment_eq, IH.
+  destruct (format_comment c); reflexivity.
+Qed.
+
+Lemma nth_error_last {A} (l : list A) : nth_error l (pred (length l)) = last_opt l.
+Proof.
+  induction l as [|a l IH]; [reflexivity|]. destruct l as [|b l]; [reflexivity|].
+  change (pred (length (a :: b :: l))) with (S (pred (length (b :: l)))). cbn [nth_error]. rewrite IH. reflexivity.
+Qed.
+
+Lemma last_line_check (ls : list str) :
+  (if tr_len ls >? 1 then do l <- tr_index ls (- (1)); Ok (trp_starts_hash l tt) else Ok false)
+  = Ok (match ls with
+        | _ :: _ :: _ => match last_opt ls with Some l => starts_hash l | None => false end
+        | _ => false
+        end).
+Proof.
+  destruct ls as [|a [|b ls]]; [reflexivity|reflexivity|].
+  assert (E : tr_len (a :: b :: ls) >? 1 = true) by (unfold tr_len; cbn [length]; lia).
+  rewrite E. unfold tr_index. cbn [Z.opp]. replace (-1 <? 0) with true by reflexivity.
+  set (n := length (a :: b :: ls)).
+  assert (Hn : (2 <= n)%nat) by (unfold n; cbn [length]; lia).
+  replace (-1 + Z.of_nat n <? 0) with false by (symmetry; apply Z.ltb_ge; lia).
+  replace (Z.to_nat (-1 + Z.of_nat n)) with (pred n) by lia.
+  unfold n. rewrite nth_error_last. destruct (last_opt (a :: b :: ls)) eqn:El; [reflexivity|].
+  apply last_opt_none in El. discriminate.
+Qed.
+
+(** ** the line checks: the loop of set_field_from_raw_string is the model's [check_raw_lines] *)
+Lemma raw_loop_check lw item rsv p fc hp kvs kvd os nc fnm vv cfn orig raw rl END :
+  END = tr_nd_set_field_from_raw_string_loop1 [] lw item rsv p fc hp kvs kvd os nc fnm vv cfn orig raw rl ->
+  forall ls i first, 1 <= i -> (i =? 1) = first ->
+  tr_nd_set_field_from_raw_string_loop1 (tr_enumerate_from i ls) lw item rsv p fc hp kvs kvd os nc fnm vv cfn orig raw rl
+  = match check_raw_lines first ls with
+    | Ok _ => END
+    | Err e => MErr e (hp, kvs, kvd, os)
+    end.
+Proof.
+  intros HE. induction ls as [|l ls IH]; intros i first Hi Hf.
+  - cbn [tr_enumerate_from check_raw_lines]. now rewrite HE.
+  - cbn [tr_enumerate_from check_raw_lines]. cbn [tr_nd_set_field_from_raw_string_loop1].
+    unfold trp_ends_nl. destruct (ends_nl l) eqn:En; cbn [negb]; [|reflexivity].
+    rewrite Hf. destruct l as [|c l]; [discriminate|].
+    destruct first; cbn [negb andb].
+    + apply IH; [lia|]. apply Z.eqb_neq. lia.
+    + unfold tr_index. cbn [length]. replace (0 <? 0) with false by reflexivity. cbn [Z.to_nat nth_error bind].
+      replace (0 <? 0) with false by reflexivity. cbn [bind].
+      cbn [tr_str_in existsb str_eqb list_eqb]. rewrite !andb_true_r, orb_false_r.
+      change 32%N with SP. change 9%N with TAB. change 35%N with HASH.
+      rewrite <- orb_assoc.
+      destruct ((c =? SP)%N || ((c =? TAB)%N || (c =? HASH)%N)); cbn [negb].
+      * apply IH; [lia|]. apply Z.eqb_neq. lia.
+      * reflexivity.
+Qed.
+
+(** ** the store after the field of one row has been replaced by one of the same name *)
+Lemma kv_inv_upd kvs kvd A r B f' :
+  kv_inv kvs kvd (map rowP (A ++ r :: B)) -> f_name f' = f_name (r_f r) ->
+  kv_inv (t_set (r_kv r) f' kvs) kvd (map rowP (A ++ mkRow (r_id r) (r_kv r) f' :: B)).
+Proof.
+  intros [K G D Rf S] Hn. rewrite map_app in *. cbn [map] in *.
+  assert (Epk : pk (rowP (mkRow (r_id r) (r_kv r) f')) = pk (rowP r)).
+  { unfold pk, rowP. cbn [snd r_f]. now rewrite Hn. }
+  assert (K' : NoDup (map pk (map rowP A ++ rowP (mkRow (r_id r) (r_kv r) f') :: map rowP B))).
+  { rewrite map_app in *. cbn [map] in *. now rewrite Epk. }
+  constructor.
+  - exact K'.
+  - intros kl. rewrite G, (afind_mid pk) by exact K. rewrite (afind_mid pk) by exact K'. rewrite Epk.
+    destruct (str_eqb kl (pk (rowP r))); reflexivity.
+  - exact D.
+  - rewrite map_app in Rf |- *. cbn [map rowP fst r_kv] in Rf |- *. exact Rf.
+  - rewrite map_app in Rf. cbn [map rowP fst r_kv] in Rf.
+    apply Forall_app in S as [SA SB]. inversion SB as [|? ? _ SB']; subst.
+    assert (Hout : forall p, In p (map rowP A ++ map rowP B) -> t_get (fst p) (t_set (r_kv r) f' kvs) = t_get (fst p) kvs).
+    { intros p Hp. rewrite t_get_set. destruct (str_eqb (fst p) (r_kv r)) eqn:E; [|reflexivity].
+      apply str_eqb_eq in E. exfalso. apply NoDup_remove_2 in Rf. apply Rf. rewrite <- E, <- map_app. now apply in_map. }
+    apply Forall_app. split.
+    + rewrite Forall_forall in *. intros p Hp. rewrite Hout by (apply in_or_app; now left). now apply SA.
+    + constructor.
+      * cbn [rowP fst snd r_kv r_f]. now rewrite t_get_set, str_eqb_refl.
+      * rewrite Forall_forall in *. intros p Hp. rewrite Hout by (apply in_or_app; now right). now apply SB'.
+Qed.
+
+(** ** get_kvpair_element at row level *)
+Lemma tr_nd_get_rows hp kvs kvd os R k n i :
+  nd_inv hp kvs kvd os R -> unpack_key k true = Ok (n, i) ->
+  (List.find (has_name n) (map r_f R) = None /\ ~ In (lower n) (map rk R)
+   /\ tr_nd_get_kvpair_element lower hp kvs kvd os k true = Ok None)
+  \/ exists A r B, R = A ++ r :: B /\ rk r = lower n /\ ~ In (lower n) (map rk A)
+       /\ List.find (has_name n) (map r_f R) = Some (r_f r)
+       /\ tr_nd_get_kvpair_element lower hp kvs kvd os k true = Ok (Some (r_kv r))
+       /\ t_get (r_kv r) kvs = Some (r_f r).
+Proof.
+  intros [Ro Ki] Hu. unfold tr_nd_get_kvpair_element, trp_unpack_key. rewrite Hu. cbn [bind].
+  unfold trp_kvd_get_opt.
+  destruct (rows_find n R) as [[Ef Hn]|(A & r & B & ER & Hk & HnA & Ef & Erm)].
+  - left. split; [exact Ef|]. split; [exact Hn|]. now rewrite (kvd_get_absent _ _ _ _ Ki Hn).
+  - right. exists A, r, B. split; [exact ER|]. split; [exact Hk|]. split; [exact HnA|]. split; [exact Ef|].
+    assert (Hin : In r R) by (rewrite ER; apply in_or_app; right; now left).
+    pose proof (kv_get_row _ _ _ _ Ki Hin) as G. unfold trp_kvd_get in G. fold (rk r) in G. rewrite Hk in G.
+    destruct (t_get (lower n) kvd) as [kv|] eqn:G2; [|discriminate]. injection G as ->.
+    split; [reflexivity|]. destruct Ki as [_ _ _ _ S]. rewrite Forall_forall in S.
+    exact (S (rowP r) (in_map rowP _ _ Hin)).
+Qed.
